@@ -9,5 +9,5 @@ echo "== demo with change"; (cd /tmp && PYTHONPATH=$wt timeout 300 /venv/bin/pyt
 if [ "$3" = "--tests" ]; then
   echo "== pinned suite with change"; (cd $wt && env -u FUNSOR_VERIF /venv/bin/python -m pytest -q -p no:cacheprovider --timeout=900 --continue-on-collection-errors 2>&1 | tail -1)
 fi
-echo "== our check"; cd /verif && VERIF_EVIDENCE_DIR=/tmp/verif-mut-evidence VERIF_REPLAY_DIR=/tmp/verif-seed-replays VERIF_REPO=$wt ./check $prop --tier quick 2>&1 | grep -E "VIOLATION|invariant:|^done|HARNESS" | cut -c1-400 | head -6
+echo "== our check"; cd /verif && VERIF_EVIDENCE_DIR=/tmp/verif-mut-evidence VERIF_REPLAY_DIR=/tmp/verif-seed-replays VERIF_REPO=$wt ./check $prop --tier quick --budget ${SEED_BUDGET:-3000} 2>&1 | grep -E "VIOLATION|invariant:|^done|HARNESS" | cut -c1-400 | head -6
 git -C /repo worktree remove --force $wt
